@@ -381,6 +381,13 @@ func (b *built) fresh(t *rapid.T) *types.Block {
 	if err != nil {
 		t.Fatalf("harness: generated block does not decode: %v (%s)", err, b.shape)
 	}
+	if rapid.IntRange(0, 2).Draw(t, "usedbefore") == 0 {
+		// the object has been looked at before it is changed (its size was logged, it was split into parts once): what it
+		// answers afterwards must follow its content, not what it answered first
+		nb.Size()
+		nb.MakePartSet(rapid.SampledFrom([]int{16, 64, 4096}).Draw(t, "usedbefore_ps"))
+		vstat.Label("object_serialised_once_before_the_change")
+	}
 	return nb
 }
 
@@ -634,7 +641,16 @@ func observe(t *rapid.T, mutated *types.Block, partSize int) (o observed, ok boo
 	if err != nil {
 		return o, false, "decode: " + err.Error()
 	}
-	return observed{blk: nb, bz: bz, hash: nb.Hash(), parts: nb.MakePartSet(partSize).Header()}, true, ""
+	o = observed{blk: nb, bz: bz, hash: nb.Hash(), parts: nb.MakePartSet(partSize).Header()}
+	// the proposer's side: the parts made from the object itself are the parts of the bytes it encodes to now
+	// (whatever the object was asked before it was changed)
+	if own := mutated.MakePartSet(partSize).Header(); !own.Equals(o.parts) {
+		vstat.Violation(t, P, "partset:parts-of-the-object-are-not-those-of-its-content", "Block.MakePartSet(%d) of a block object gives header %v, the bytes the object encodes to give %v: the parts gossiped under the proposal do not reassemble into the block the proposer holds", partSize, own, o.parts)
+	}
+	if sz := mutated.Size(); sz != len(bz) {
+		vstat.Violation(t, P, "partset:parts-of-the-object-are-not-those-of-its-content", "Block.Size() = %d, the block encodes to %d bytes", sz, len(bz))
+	}
+	return o, true, ""
 }
 
 func try(f func()) (pan interface{}) {
